@@ -19,7 +19,8 @@ def log_configs(rnd, count):
              dict(on=True, patients=3, path=True, dir="absent"), dict(on=True, plot=2),
              dict(on=True, save=2, plot=3, path=True, dir="absent"),
              dict(on=True, print=3, path=True, dir="nonempty"), dict(on=True, print=3, save=3, path=True, dir="nonempty", overwrite=True),
-             dict(on=True, path=True, dir="absent"), dict(on=True, overwrite=True)]
+             dict(on=True, path=True, dir="absent"), dict(on=True, overwrite=True),
+             dict(on=True, save=2, print=3, path=True, dir="absent", relative=True)]
     for f in fixed:
         out.append(f)
         seen.add(tuple(sorted(f.items())))
@@ -36,6 +37,29 @@ def log_configs(rnd, count):
         seen.add(key)
         out.append(l)
     return out[:count]
+
+
+def fresh_interpreters(ctx):
+    """A seeded fit / personalization / simulation gives the same numbers in fresh interpreters whatever their string-hash seed
+    (the order of a set of identifiers is not an input of the computation)."""
+    import json
+    import subprocess
+    import sys
+    got = {}
+    for hs in ("1", "2"):
+        env = dict(os.environ, PYTHONHASHSEED=hs)
+        p = subprocess.run([sys.executable, "-W", "ignore", "-m", "harness.drivers.hashseed_probe"], capture_output=True, text=True, env=env,
+                           cwd=os.path.dirname(os.path.dirname(os.path.dirname(os.path.abspath(__file__)))), timeout=900)
+        line = next((l for l in p.stdout.splitlines() if l.startswith("DIGESTS ")), None)
+        if line is None:
+            raise tlc.MachineryError(f"hash-seed probe failed (exit {p.returncode}): {p.stderr[-400:]}")
+        got[hs] = json.loads(line[8:])
+        ctx.case(key=("fresh_interpreter", hs))
+    diff = [k for k in got["1"] if got["1"][k] != got["2"].get(k)]
+    ctx.log(f"fresh interpreters with string-hash seeds 1 / 2: seeded fit, personalization, two simulations -> {'identical' if not diff else 'DIFFER: ' + str(diff)}")
+    if diff:
+        ctx.violation({"check": "hash_seed", "what": diff[0]}, f"seeded {diff} differ between fresh interpreters with different string-hash seeds: {got}",
+                      replay=got)
 
 
 def burn_rngs(rnd):
@@ -63,6 +87,7 @@ def run(ctx):
     ctx.log(f"TLC MC_Saem_logging: {res.distinct} states, violated={res.violated} ({res.wall:.1f}s)")
     if res.violated:
         ctx.violation({"check": "design", "invariant": res.violated[0]}, f"Saem.tla violates {res.violated}", replay=res.trace_text[:4000])
+    fresh_interpreters(ctx)
     rnd = random.Random(ctx.seed)
     kinds = ["logistic_diag_src1", "joint_src1"] if q else ["logistic_diag_src1", "joint_src1", "linear_scalar_src1"]
     n_cfg = 24 if q else 150
@@ -88,6 +113,10 @@ def run(ctx):
         evs1, _ = saem.run_config(kind, base_cfg, seed=seed, workdir=w, compare_to=base, cohort_attempt=ca)
         events += evs1
         ctx.case(key=(kind, "repeat-after-history"))
+        # ... and after somebody switched torch's default dtype in the same interpreter
+        evs1b, _ = saem.run_config(kind, dict(base_cfg, dtype64=True), seed=seed, workdir=w, compare_to=base, cohort_attempt=ca)
+        events += evs1b
+        ctx.case(key=(kind, "repeat-after-dtype-switch"))
         # the same algorithm object run twice (annealing on), and settings that travelled through a JSON file, for seeds 0 and 5
         for sd in ((0, 5) if (not q or kind == kinds[0]) else ()):
             acfg = dict(base_cfg, ann=dict(spec=("count", 4), p=3, t0=(5, 1)))
